@@ -5,10 +5,13 @@ import (
 	"os"
 	"testing"
 
+	"github.com/deepteams/webp/verifharness/core"
 	"github.com/deepteams/webp/verifharness/gen"
 	"github.com/deepteams/webp/verifharness/ref/cref"
 	"github.com/deepteams/webp/verifharness/ref/riffwalk"
+	"github.com/deepteams/webp/verifharness/ref/vp8hdr"
 	"github.com/deepteams/webp/verifharness/ref/xref"
+	"github.com/deepteams/webp/verifharness/ref/xvp8l"
 )
 
 // Native coverage-guided differential targets (thorough tier). The input is a raw VP8L / VP8
@@ -57,6 +60,7 @@ func fuzzSeedsVP8L(f *testing.F) {
 
 func FuzzC03(f *testing.F) {
 	fuzzSeedsVP8L(f)
+	xvp8l.MaxGroups = 2048 // bounds the witness's work on hostile group counts (the engine kills inputs slower than 10 s)
 	f.Fuzz(func(t *testing.T, data []byte) {
 		if !cref.Available() || len(data) < 5 || len(data) > 1<<16 || data[0] != 0x2f {
 			return
@@ -103,6 +107,23 @@ func FuzzC04(f *testing.F) {
 		if w == 0 || h == 0 || w*h > fuzzMaxPixels {
 			return
 		}
+		// Domain: partitions a boolean encoder can produce. A partition whose first byte is 0xff starts
+		// the decoder in a state (value >= range) that no encoder output reaches and in which decoders
+		// legitimately differ (DESIGN.md 13.2, false alarm 2); the generators exclude it the same way.
+		hd, err := vp8hdr.Parse(data)
+		if err != nil {
+			return
+		}
+		if data[10] == 0xff {
+			return
+		}
+		off := 10 + hd.Part0Size + 3*(hd.NumPartitions-1)
+		for _, sz := range hd.PartSizes {
+			if off < len(data) && data[off] == 0xff {
+				return
+			}
+			off += sz
+		}
 		d := diffStill(&stillParts{File: xref.Simple("VP8 ", data), Bitstream: data, W: w, H: h, RawToWitness: true})
 		if !d.Truth {
 			return
@@ -134,4 +155,28 @@ func fuzzVP8Prog(i int) *gen.VP8Prog {
 	}
 	p.QDelta = [5]int{(i % 5) - 2, 0, (i % 3) - 1, 0, i % 2}
 	return p
+}
+
+// FuzzC16: arbitrary bytes that the strict container validator (riffwalk) accepts as a
+// well-formed WebP file must be described consistently by every view (checkC16).
+func FuzzC16(f *testing.F) {
+	for _, s := range seeds() {
+		f.Add(s.Data)
+	}
+	f.Fuzz(func(t *testing.T, data []byte) {
+		if len(data) > 1<<16 {
+			return
+		}
+		rf, err := riffwalk.Parse(data)
+		if err != nil || len(rf.Frames) == 0 {
+			return
+		}
+		if riffwalk.DeclaredPixels(data) > 1<<16 {
+			return
+		}
+		o := &core.Obs{}
+		if err := checkC16(&c16Case{Source: "fuzz", Desc: "native fuzz input", File: data}, o); err != nil {
+			t.Fatalf("%v", err)
+		}
+	})
 }
